@@ -10,7 +10,8 @@
      read_nonempty_block_with (skipping empty blocks), read_block, read_block_into_buf
      Read::read (incl. the direct path for buffers >= 65536), Read::read_exact (fast path +
      default_read_exact), std's default read_exact (what IndexedReader uses),
-     BufRead::{fill_buf, consume}, Reader::seek, Reader::seek_by_uncompressed_position. *)
+     BufRead::{fill_buf, consume}, Reader::seek, Reader::seek_by_uncompressed_position,
+     and the caller-side read-to-end loop (read with an n-byte buffer until a call returns 0). *)
 From Coq Require Import List NArith Bool.
 From NV Require Import Bgzf.Vpos Bgzf.Gzi.
 Import ListNotations.
@@ -162,6 +163,33 @@ Definition read_exact (fx : bool) (st : state) (n : N) : state * res (list N) :=
   | Unmodelled => (st, Unmodelled)
   end.
 
+(* The read-to-end loop of a caller with an n-byte buffer:
+     loop { let k = r.read(&mut buf[..n])?; if k == 0 { break } out.extend(&buf[..k]) }
+   Every productive iteration hands out at least one of the bytes still ahead of the cursor
+   (the rest of the block buffer and the data of the frames not yet delivered), so
+   [data_ahead] + 1 iterations suffice; OutOfFuel is proved unreachable for the repaired reader. *)
+Fixpoint read_all_loop (fx : bool) (fuel : nat) (st : state) (n : N) (acc : list N)
+  : state * res (list N) :=
+  match fuel with
+  | O => (st, OutOfFuel)
+  | S k =>
+      match read fx st n with
+      | (st', Ok bs) =>
+          if len bs =? 0 then (st', Ok acc)
+          else read_all_loop fx k st' n (acc ++ bs)
+      | (st', Err e) => (st', Err e)
+      | (st', Panic) => (st', Panic)
+      | (st', OutOfFuel) => (st', OutOfFuel)
+      | (st', Unmodelled) => (st', Unmodelled)
+      end
+  end.
+
+Definition data_ahead (st : state) : nat :=
+  (N.to_nat (blen st) + length (concat (map fdata (rest st))))%nat.
+
+Definition read_all (fx : bool) (st : state) (n : N) : state * res (list N) :=
+  read_all_loop fx (S (data_ahead st)) st n [].
+
 (* inner.seek(SeekFrom::Start(cpos)) on the parsed file: the frames from offset cpos on;
    None when cpos falls inside a frame (outside the model) *)
 Fixpoint drop_to (fs : list frame) (at_ : N) (cpos : N) : option (list frame) :=
@@ -204,7 +232,8 @@ Definition seek_by_uncompressed_position (fx : bool) (f : file) (idx : gzi_index
 
 Inductive op :=
 | Read (n : N) | ReadExact (n : N) | ReadExactStd (n : N)
-| FillBuf | Consume (n : N) | Seek (v : N) | SeekU (pos : N).
+| FillBuf | Consume (n : N) | Seek (v : N) | SeekU (pos : N)
+| ReadAll (n : N).
 
 Inductive out :=
 | OBytes (r : res (list N))
@@ -220,6 +249,7 @@ Definition step (fx : bool) (f : file) (idx : gzi_index) (st : state) (o : op) :
   | Consume n => (consume st n, OUnit)
   | Seek v => let '(s, r) := seek fx f st v in (s, OPos r)
   | SeekU p => let '(s, r) := seek_by_uncompressed_position fx f idx st p in (s, OPos r)
+  | ReadAll n => let '(s, r) := read_all fx st n in (s, OBytes r)
   end.
 
 (* a history: after every op, its result and the virtual position then reported *)
